@@ -83,6 +83,13 @@ class Verifier(Exec):
                 isinstance(node.exc.args[0].left.value, str):
             # raise E("text %s" % (...)): the message is not modelled, its operands are not evaluated
             return [(st, ("raise", exc(node.exc.func.id)))]
+        if isinstance(node.exc, ast.Call) and isinstance(node.exc.func, ast.Name) and \
+                node.exc.func.id in ("TypeError", "ValueError", "KeyError", "IndexError") and node.exc.args and \
+                all(isinstance(a, ast.JoinedStr) or (isinstance(a, ast.Call) and isinstance(a.func, ast.Attribute) and
+                                                    a.func.attr == "format" and isinstance(a.func.value, ast.Constant))
+                    for a in node.exc.args):
+            # raise E(f"...") / E("...{}".format(..)): likewise
+            return [(st, ("raise", exc(node.exc.func.id)))]
 
         def f(s, v):
             if v.kind == "excobj":
@@ -547,6 +554,10 @@ class Verifier(Exec):
         if self.fwd_names:
             st.env["$fwd"] = SV("fwd", None, list(self.fwd_names))
         for nm in names:
+            if nm == "self" and isinstance(con.cls, str) and con.cls.startswith("dt:"):
+                st.env[nm] = SV("dtype", None, con.cls[3:])     # a data type of _datatypes.py (pyvc/dtypes.py)
+                st.env["$defcls"] = SV("str", None, self._dt_defcls)
+                continue
             if nm == "self":
                 z = z3.Int("self")
                 st.assume(z > 0)
@@ -564,6 +575,9 @@ class Verifier(Exec):
             v = self.mk_value(st, k, nm)
             for r in self.refs_in(v):
                 st.assume(r < st.alloc)
+            if v.kind == "any" and isinstance(con.cls, str) and con.cls.startswith("dt:"):
+                from .dtypes import wellformed
+                st.assume(wellformed(v.z))
             st.env[nm] = v
         return st
 
@@ -604,6 +618,14 @@ class Verifier(Exec):
         self.cur = con
         self.compare_error_paths = 0
         fdef = self.sources[con.ghost.get("of", con.name)]
+        if isinstance(con.cls, str) and con.cls.startswith("dt:"):
+            # the converter a data type really runs: resolved through the MRO of the real classes, so that an
+            # override added in a subclass is what gets verified (pyvc/dtypes.py)
+            hit = self.dt_lookup(con.cls[3:], con.ghost.get("of", con.name).split(".")[-1])
+            if hit is None or hit[0] != "method":
+                raise Unsupported("%s: no such method on data type %s" % (con.name, con.cls[3:]))
+            fdef = hit[1]
+            self._dt_defcls = hit[2]
         self.loop_index = {}
         k = 0
         for x in ast.walk(fdef):
@@ -758,6 +780,14 @@ class Verifier(Exec):
             s.env = dict(pre.env)
             s.env.update(wit)
             s.env["result"] = o[1]
+            if con.returns == "int" and o[1].kind == "any" and isinstance(con.cls, str) and con.cls.startswith("dt:"):
+                # the converter hands back the argument object itself: fine exactly if that is a plain int
+                from .dtypes import PY_EXACTINT, PY_IVAL
+                self.oblige(s, "%s:returns-kind:plain-int" % con.name, PY_EXACTINT(o[1].z),
+                            "the argument object itself is returned; it must be a plain int (not a subclass, not an "
+                            "object with __index__); path %s" % " / ".join(s.trace[-8:]))
+                o = ("return", mk_int(PY_IVAL(o[1].z)))
+                s.env["result"] = o[1]
             if con.returns is not None:
                 alts = con.returns if isinstance(con.returns, list) else [con.returns]
                 if not any(self.shape_ok(o[1], a) for a in alts):
